@@ -3,6 +3,7 @@ import Tea.Props.C06
 import Tea.Proofs.Quit
 import Tea.Proofs.Resize
 import Tea.Proofs.ResizeLocked
+import Tea.Proofs.ResizeStartup
 /-
 C18 — OS signals and window size are reported faithfully.
 
@@ -831,6 +832,13 @@ after cancellation; `Quiescent` and the theorems on the order of reports are abo
 are not cancelled - `cancelled` is never reset, so such a run has no cancelled state at all.)
 Helper lemmas: `Tea/Proofs/ResizeLocked.lean`.
 
+START-UP.  Like section 8, this section starts at `init z`: the listener is subscribed to
+SIGWINCH from the first instant (every `resize` raises the signal) and one start-up checker is in
+flight.  The subscription itself (`signal.Notify`, a step of the listener goroutine; a resize
+before it raises no signal) and the start-up of the current code (the listener subscribes, THEN
+performs the initial query itself) are the layer of section 10 on top of `stepL`; the theorems of
+this section are used there from the subscription on.
+
 What the repair buys: `C18_quiescent_last_is_true` without `raceFree`
 (`C18L_quiescent_last_is_true`); `Fresh` along EVERY step (`C18L_fresh_inductive`); the
 reports are the sizes read by the queries, in the order of the queries
@@ -1050,5 +1058,290 @@ theorem C18L_renderer_has_true_size (r : Tea.Render.RState) (z : Size) (ls : Lis
       = s.size.2 :=
   C18_renderer_has_last_reported r s.reported s.size.1 s.size.2
     (C18L_quiescent_last_is_true z ls s hrun hq)
+
+end Tea.Props.C18
+
+/-! ### 10. start-up: subscription before the first query
+
+Sections 8 and 9 assume that the listener is subscribed to SIGWINCH from the first instant.  The
+real start-up was
+
+    handleResize():      go p.checkResize()            -- the start-up query, a goroutine of its own
+                         go p.listenForResize(done)    -- sig := make(chan, 1); signal.Notify(sig, SIGWINCH); loop
+
+so a resize AFTER the start-up query had read the size and BEFORE `signal.Notify` raised a signal
+nobody was subscribed to - the Go runtime ignores SIGWINCH then -, and the stale size stayed the
+last one reported until the next resize (`C18S_resize_before_subscription_lost`; reproduced on
+the real code).  The code is now
+
+    handleResize():      go p.listenForResize(done)
+    listenForResize():   sig := make(chan, 1); signal.Notify(sig, SIGWINCH)
+                         p.checkResize()               -- the initial size, AFTER the subscription
+                         loop as before
+
+The model is the START-UP LAYER at the end of `Tea/Runtime/Resize.lean`, on top of the repaired
+core `stepL` of section 9, whose state, labels and steps are untouched: `StS` adds the flag
+`subscribed`, `LabelS` the listener's step `subscribe` (internal); a `resize` while nobody is
+subscribed changes the size and raises no signal (`resizeUnsub`), every other step of the core is
+`stepL` (`C18S_layer`).  `stepOldS` / `initOldS` is the start-up before the repair (`subscribe`
+only sets the flag; the start-up checker of `init` is in flight), `stepNewS` / `initNewS` the
+current one (no start-up checker; `subscribe` puts the listener into `querying`: its initial
+query, under the mutex like every other).  `QuiescentS`: subscribed, and the core is `Quiescent`.
+WindowSize commands may start checkers before the subscription - they are ordinary checkers.
+Helper lemmas: `Tea/Proofs/ResizeStartup.lean`.
+
+What holds for the current start-up, for EVERY history of resizes - those before the subscription
+included: in every reachable `QuiescentS` state the last report is the true size
+(`C18S_quiescent_last_is_true`, by the invariant `StartupInv`, `C18S_startup_inductive`); such a
+state can be reached from every reachable state that is not cancelled (`C18S_can_quiesce`,
+`C18S_resize_gets_reported`); the listener does nothing before it is subscribed
+(`C18S_first_report_after_subscription`); and the counting of section 9 with the listener's
+initial report in the place of the start-up checker's (`C18S_every_command_answered`). -/
+namespace Tea.Props.C18
+open Tea.Runtime.Resize
+
+/-- **THE LAYER IS `stepL` PLUS THE SUBSCRIPTION** (both start-ups).  Once subscribed, a step of
+the core is exactly a step of the repaired model of section 9; before, the same except that a
+resize only changes the size (no signal: `pending` is not touched); `subscribe` is enabled
+exactly when not subscribed and not cancelled, and in the current start-up it makes the listener
+`querying`. -/
+theorem C18S_layer :
+    (∀ c l, stepNewS ⟨c, true⟩ (.core l) = (stepL c l).map (fun c' => ⟨c', true⟩)) ∧
+    (∀ c l, stepOldS ⟨c, true⟩ (.core l) = (stepL c l).map (fun c' => ⟨c', true⟩)) ∧
+    (∀ c l, l.isResize = false →
+      stepNewS ⟨c, false⟩ (.core l) = (stepL c l).map (fun c' => ⟨c', false⟩) ∧
+      stepOldS ⟨c, false⟩ (.core l) = (stepL c l).map (fun c' => ⟨c', false⟩)) ∧
+    (∀ c sz, stepNewS ⟨c, false⟩ (.core (.resize sz)) = some ⟨{ c with size := sz }, false⟩ ∧
+      stepOldS ⟨c, false⟩ (.core (.resize sz)) = some ⟨{ c with size := sz }, false⟩) ∧
+    (∀ s : StS, (stepNewS s .subscribe).isSome = (!s.subscribed && !s.core.cancelled) ∧
+      (stepOldS s .subscribe).isSome = (!s.subscribed && !s.core.cancelled)) ∧
+    (∀ s s', stepNewS s .subscribe = some s' →
+      s' = ⟨{ s.core with listener := .querying }, true⟩) ∧
+    (∀ s s', stepOldS s .subscribe = some s' → s' = ⟨s.core, true⟩) := by
+  refine ⟨?_, ?_, ?_, fun _ _ => ⟨rfl, rfl⟩, ?_, ?_, ?_⟩
+  · intro c l
+    simp only [stepNewS, coreStep_true]
+    cases stepL c l <;> rfl
+  · intro c l
+    simp only [stepOldS, coreStep_true]
+    cases stepL c l <;> rfl
+  · intro c l hl
+    simp only [stepNewS, stepOldS, coreStep_of_not_resize false c hl]
+    cases stepL c l <;> exact ⟨rfl, rfl⟩
+  · intro ⟨c, sub⟩
+    cases sub <;> cases hc : c.cancelled <;> simp [stepNewS, stepOldS, hc]
+  · intro s s' h
+    rcases stepNewS_cases h with ⟨_, _, _, rfl⟩ | ⟨_, _, hh, _⟩
+    · rfl
+    · cases hh
+  · intro s s' h
+    rcases stepOldS_cases h with ⟨_, _, _, rfl⟩ | ⟨_, _, hh, _⟩
+    · rfl
+    · cases hh
+
+/-- **A RESIZE BEFORE THE SUBSCRIPTION WAS LOST** - the start-up BEFORE the repair (by
+evaluation).  80x24 at start-up; the start-up checker reads 80x24; the terminal is resized to
+100x30 while the listener has not called `signal.Notify` yet: no signal; the listener subscribes;
+the checker delivers its 80x24.  Everything is quiescent - subscribed, no signal pending, the
+listener waiting, no checker in flight, not cancelled -, Update's last (and only) WindowSizeMsg
+is 80x24, the terminal is 100x30, and nothing will correct it until the next resize.  The mutex
+of section 9 does not help: one goroutine queried. -/
+theorem C18S_resize_before_subscription_lost :
+    (runLabelsOldS (initOldS (80, 24))
+      [.core (.query (some 0)), .core (.resize (100, 30)), .subscribe,
+       .core (.deliver (some 0))]).map
+        (fun s => (decide (QuiescentS s), s.core.cancelled, lastReported s.core, s.core.size))
+      = some (true, false, some (80, 24), (100, 30)) ∧
+    -- the same resize one step later, after the subscription, is reported
+    (runLabelsOldS (initOldS (80, 24))
+      [.core (.query (some 0)), .subscribe, .core (.resize (100, 30)),
+       .core (.deliver (some 0)), .core .take, .core (.query none), .core (.deliver none)]).map
+        (fun s => (decide (QuiescentS s), lastReported s.core, s.core.size))
+      = some (true, some (100, 30), (100, 30)) := ⟨by decide, by decide⟩
+
+/-- **THE INVARIANT OF THE CURRENT START-UP** (`StartupInv`): before the subscription the listener
+has done nothing - it is waiting and no signal is in its channel -; from the subscription on
+`Fresh` and `SenderOk` (section 9) hold.  It holds initially, is preserved by every step - at
+`subscribe` the listener becomes `querying`, which makes `Fresh` and `SenderOk` true whatever
+the checkers hold and whatever the size has become -, so it holds in every reachable state. -/
+theorem C18S_startup_inductive (z : Size) :
+    StartupInv (initNewS z) ∧
+    (∀ s l s', stepNewS s l = some s' → StartupInv s → StartupInv s') ∧
+    (∀ s, ReachableNewS z s → StartupInv s) ∧
+    (∀ s s', stepNewS s .subscribe = some s' → Fresh s'.core ∧ SenderOk s'.core) :=
+  ⟨startupInv_init z, fun _ _ _ hs hi => startupInv_step hs hi,
+   fun _ hr => startupInv_reachable hr,
+   fun _ _ hs => by
+     rcases stepNewS_cases hs with ⟨_, _, _, rfl⟩ | ⟨_, _, hh, _⟩
+     · exact ⟨Or.inr (Or.inl rfl), fun _ _ _ _ => Or.inr rfl⟩
+     · cases hh⟩
+
+/-- **THE LAST REPORT IS THE TRUE SIZE**, in EVERY reachable state of the current start-up that
+is `QuiescentS` (subscribed, nothing pending, the listener waiting, no checker in flight, not
+cancelled) - for every history of resizes and commands, those before the subscription
+included, and every interleaving. -/
+theorem C18S_quiescent_last_is_true (z : Size) (s : StS) (hr : ReachableNewS z s)
+    (hq : QuiescentS s) : lastReported s.core = some s.core.size :=
+  startupInv_quiescent (startupInv_reachable hr) hq
+
+/-- **`QuiescentS` CAN BE REACHED.**  From every reachable state of the current start-up that is
+not cancelled, exactly `rankS s ≤ 2·(checkers in flight) + 5` internal steps (`subscribe` first
+if the listener has not subscribed yet, then `take` / `query` / `deliver` as in
+`C18L_can_quiesce`; each enabled in turn, no help from the environment) lead to a `QuiescentS`
+state with the size unchanged, and there the LAST report is the true size.  So under a fair
+scheduler, after ANY history of resizes - before or after the subscription - and with no further
+resize, the program ends up knowing the terminal's true size. -/
+theorem C18S_can_quiesce (z : Size) (s : StS) (hr : ReachableNewS z s)
+    (hn : s.core.cancelled = false) :
+    ∃ ps s', (∀ l ∈ ps, l.isInternal = true) ∧ ps.length = rankS s ∧
+      rankS s ≤ 2 * s.core.checkers.length + 5 ∧
+      runLabelsNewS s ps = some s' ∧ QuiescentS s' ∧ s'.core.size = s.core.size ∧
+      lastReported s'.core = some s.core.size := by
+  have hi := startupInv_reachable hr
+  obtain ⟨ps, s', p1, p2, p3, p4, p5, _⟩ :=
+    quiesceS s hn (fun h => (startupInv_waiting hi h).1)
+  refine ⟨ps, s', p1, p2, rankS_le hi, p3, p4, p5, ?_⟩
+  rw [← p5]
+  exact C18S_quiescent_last_is_true z s' (reachableNewS_runLabels ps hr p3) p4
+
+/-- **A RESIZE GETS REPORTED, LAST - WHENEVER IT HAPPENS.**  After a resize to `sz` in any
+reachable state of the current start-up that is not cancelled - subscribed (the signal is raised)
+or NOT YET subscribed (no signal: the listener's initial query comes after its subscription and
+reads `sz`) -, at most `2·(checkers in flight) + 5` internal steps lead to a `QuiescentS` state
+whose LAST report is `sz`; and EVERY `QuiescentS` state reached after that resize without a
+further one has `sz` as its last report. -/
+theorem C18S_resize_gets_reported (z : Size) (t : StS) (sz : Size) (hr : ReachableNewS z t)
+    (hn : t.core.cancelled = false) :
+    (∃ t1 ps s, stepNewS t (.core (.resize sz)) = some t1 ∧ (∀ l ∈ ps, l.isInternal = true) ∧
+      ps.length ≤ 2 * t.core.checkers.length + 5 ∧ runLabelsNewS t1 ps = some s ∧
+      QuiescentS s ∧ s.core.size = sz ∧ lastReported s.core = some sz) ∧
+    (∀ post s, runLabelsNewS t (.core (.resize sz) :: post) = some s →
+      (∀ l ∈ coreLabels post, l.isResize = false) → QuiescentS s →
+      s.core.size = sz ∧ lastReported s.core = some sz) := by
+  obtain ⟨t1, h1, hsz, hcs, hc, _, _⟩ := stepNewS_resize t sz
+  have hr1 : ReachableNewS z t1 := ReachableNewS.step _ hr h1
+  refine ⟨?_, ?_⟩
+  · obtain ⟨ps, s, p1, p2, p3, p4, p5, p6, p7⟩ := C18S_can_quiesce z t1 hr1 (by rw [hc]; exact hn)
+    exact ⟨t1, ps, s, h1, p1, by rw [p2, ← hcs]; exact p3, p4, p5, by rw [p6, hsz],
+      by rw [p7, hsz]⟩
+  · intro post s hrun hnr hq
+    obtain ⟨t1', h1', h2⟩ := runLabelsNewS_cons hrun
+    rw [h1] at h1'
+    cases h1'
+    have hsize : s.core.size = sz := by rw [size_runS h2 hnr, hsz]
+    exact ⟨hsize, by
+      rw [← hsize]
+      exact C18S_quiescent_last_is_true z s (reachableNewS_runLabels post hr1 h2) hq⟩
+
+/-- **NOTHING BEFORE THE SUBSCRIPTION.**  In the current start-up: (1) in every reachable state
+that is not subscribed yet the listener is waiting and no signal is in its channel; (2) in every
+run, every step of the listener - `take`, its `query` (in particular the INITIAL query), its
+`deliver` - comes after `subscribe`; (3) so the size the listener reports first was read after
+the subscription: every later resize raises a signal. -/
+theorem C18S_first_report_after_subscription (z : Size) :
+    (∀ s, ReachableNewS z s → s.subscribed = false →
+      s.core.listener = .waiting ∧ s.core.pending = false) ∧
+    (∀ pre post l s, runLabelsNewS (initNewS z) (pre ++ .core l :: post) = some s →
+      (l = .take ∨ l = .query none ∨ l = .deliver none) → LabelS.subscribe ∈ pre) ∧
+    (∀ s sz, ReachableNewS z s → s.subscribed = true →
+      (stepNewS s (.core (.resize sz))).map (fun s' => s'.core.pending) = some true) := by
+  refine ⟨fun s hr h => startupInv_waiting (startupInv_reachable hr) h,
+    fun pre post l s h hl => listener_step_after_subscribe h hl, ?_⟩
+  intro ⟨c, sub⟩ sz _ hsub
+  simp only at hsub
+  subst hsub
+  rfl
+
+/-- **EVERY COMMAND IS ANSWERED, EXACTLY ONCE** - the counting theorem for the current start-up.
+In every run from start-up: (1) the reports delivered plus the goroutines that still owe one are
+exactly 1 (the listener's initial report, owed from the subscription on) + the listener's takes
++ the WindowSize commands; (2) a take needs a signal, and only a subscribed resize raises one:
+takes (+1 if a signal is pending) ≤ resizes; (3) so in a `QuiescentS` state the number of
+WindowSizeMsgs Update received is exactly 1 + takes + commands, at most 1 + resizes + commands;
+(4) and before the subscription every report answers a WindowSize command. -/
+theorem C18S_every_command_answered (z : Size) (ls : List LabelS) (s : StS)
+    (hrun : runLabelsNewS (initNewS z) ls = some s) :
+    inFlight s.core + s.core.reported.length =
+      (if s.subscribed then 1 else 0) + takes (coreLabels ls) + commands (coreLabels ls) ∧
+    takes (coreLabels ls) + (if s.core.pending then 1 else 0) ≤ resizes (coreLabels ls) ∧
+    (QuiescentS s →
+      s.core.reported.length = 1 + takes (coreLabels ls) + commands (coreLabels ls) ∧
+      s.core.reported.length ≤ 1 + resizes (coreLabels ls) + commands (coreLabels ls)) ∧
+    (s.subscribed = false → takes (coreLabels ls) = 0 ∧
+      s.core.reported.length ≤ commands (coreLabels ls)) := by
+  have h1 := countS_run hrun (startupInv_init z)
+  have h2 := signalS_run hrun
+  have e0 : (initNewS z).subscribed = false := rfl
+  have e1 : inFlight (initNewS z).core = 0 := rfl
+  have e2 : (initNewS z).core.reported.length = 0 := rfl
+  have e3 : (initNewS z).core.pending = false := rfl
+  rw [e0, e1, e2] at h1
+  rw [e3] at h2
+  simp only [Bool.false_eq_true, if_false] at h1 h2
+  refine ⟨by omega, by omega, ?_, ?_⟩
+  · intro ⟨q0, _, q2, q3, _⟩
+    have : inFlight s.core = 0 := by simp [inFlight, q2, q3]
+    rw [q0] at h1
+    simp only [if_true] at h1
+    omega
+  · intro hsub
+    have ht := takes_unsub_run hrun hsub rfl rfl
+    rw [hsub] at h1
+    simp only [Bool.false_eq_true, if_false] at h1
+    exact ⟨ht, by omega⟩
+
+/-! #### concrete runs of the current start-up (non-vacuity; by evaluation) -/
+
+/-- the environment history of `C18S_resize_before_subscription_lost` - a resize to 100x30 before
+the subscription - in the current start-up: the listener subscribes, THEN queries: it reads and
+reports 100x30 -/
+example :
+    (runLabelsNewS (initNewS (80, 24))
+      [.core (.resize (100, 30)), .subscribe, .core (.query none), .core (.deliver none)]).map
+        (fun s => (decide (QuiescentS s), s.core.cancelled, lastReported s.core, s.core.size))
+      = some (true, false, some (100, 30), (100, 30)) := by decide
+
+/-- a WindowSize command before the subscription: its checker reads 80x24 and holds the mutex,
+the terminal is resized (no signal), the listener subscribes and waits for the mutex (its `query`
+is not enabled), the checker delivers 80x24, the listener reads and delivers 100x30 -/
+example :
+    (runLabelsNewS (initNewS (80, 24))
+      [.core .windowSizeCmd, .core (.query (some 0)), .core (.resize (100, 30)),
+       .subscribe]).map
+        (fun s => (s.core.pending, s.core.listener, mutexHeld s.core,
+          (stepNewS s (.core (.query none))).isSome))
+      = some (false, .querying, true, false) ∧
+    (runLabelsNewS (initNewS (80, 24))
+      [.core .windowSizeCmd, .core (.query (some 0)), .core (.resize (100, 30)), .subscribe,
+       .core (.deliver (some 0)), .core (.query none), .core (.deliver none)]).map
+        (fun s => (decide (QuiescentS s), s.core.reported, lastReported s.core, s.core.size))
+      = some (true, [(80, 24), (100, 30)], some (100, 30), (100, 30)) := by decide
+
+/-- without a resize the initial size is reported, once; the listener cannot query before it is
+subscribed; and the labels of `C18S_resize_before_subscription_lost` are not a run of the current
+start-up (there is no start-up checker) -/
+example :
+    (runLabelsNewS (initNewS (80, 24))
+      [.subscribe, .core (.query none), .core (.deliver none)]).map
+        (fun s => (decide (QuiescentS s), s.core.reported, s.core.size))
+      = some (true, [(80, 24)], (80, 24)) ∧
+    stepNewS (initNewS (80, 24)) (.core (.query none)) = none ∧
+    stepNewS (initNewS (80, 24)) (.core .take) = none ∧
+    runLabelsNewS (initNewS (80, 24))
+      [.core (.query (some 0)), .core (.resize (100, 30)), .subscribe,
+       .core (.deliver (some 0))] = none ∧
+    rankS (initNewS (80, 24)) = 3 := by decide
+
+/-- **THE RENDERER CLIPS TO THE TRUE SIZE** once the size reporting has settled: feeding the
+renderer the WindowSizeMsgs of ANY run of the current start-up that ends `QuiescentS` leaves it
+with the terminal's true size. -/
+theorem C18S_renderer_has_true_size (r : Tea.Render.RState) (z : Size) (s : StS)
+    (hr : ReachableNewS z s) (hq : QuiescentS s) :
+    (s.core.reported.foldl (fun r sz => (Tea.Render.step r (.size sz.1 sz.2)).1) r).width
+      = s.core.size.1 ∧
+    (s.core.reported.foldl (fun r sz => (Tea.Render.step r (.size sz.1 sz.2)).1) r).height
+      = s.core.size.2 :=
+  C18_renderer_has_last_reported r s.core.reported s.core.size.1 s.core.size.2
+    (C18S_quiescent_last_is_true z s hr hq)
 
 end Tea.Props.C18
